@@ -5,6 +5,7 @@ import json
 import os.path
 import random
 
+import c03_invisible
 import canon_common as cc
 import lib
 import norm_common as nc
@@ -12,6 +13,8 @@ import urlgen
 
 ID = "C03"
 LEAN_MODULE = "UralModel.Props.C03"
+# the string level (cleaning of the canonical form): Props/C03Control.lean, same namespace
+EXTRA_IMPORTS = ["UralModel.Props.C03Control"]
 THEOREMS = [
     "Ural.Props.C03.normalize_factors",
     "Ural.Props.C03.normalize_canonicalize_partial",
@@ -27,12 +30,29 @@ THEOREMS = [
     "Ural.Props.C03.fingerprint_canonicalize_partial",
     "Ural.Props.C03.not_fullFingerprintOfNormalizeEq",
     "Ural.Props.C03.not_fullNormalizeCanonicalize",
+    # Props/C03Control.lean: what the cleaning pass deletes is never produced raw by the safe unquoters
+    "Ural.Props.C03.unquoters_emit_no_cleaned_character",
+    "Ural.Props.C03.canonical_form_has_no_cleaned_character",
+    "Ural.Props.C03.clean_canonical",
+    "Ural.Props.C03.normalize_cleaning_canonical_partial",
 ]
 TABLE_OBLIGATIONS = [
     "Ural.Props.C03.tables_unsafe_sets",
+    # Props/C03Control.lean, over Gen/C03Classes.lean (harness/gen_tables/c03_classes.py)
+    "Ural.Props.C03.control_class_stays_escaped",
+    "Ural.Props.C03.strip_class_stays_escaped",
+    "Ural.Props.C03.cleaning_classes_model",
+    "Ural.Props.C03.reparse_separators_stay_escaped",
+    "Ural.Props.C03.parser_removals_are_cleaned",
+    "Ural.Props.C03.escape_recognisers_agree",
 ]
 RULE = (
-    "A case is a collision class: a base URL (structured components over the quantifier's token "
+    "A case is a collision class: [stream 'inv', harness/c03_invisible.py, right after the corpus] a control / "
+    "white-space / invisible character — every range boundary of the REGENERATED classes of CONTROL_CHARS_RE, str.strip, "
+    "NON_PRINTABLE_RE and of urlsplit's own removals, a fixed list of Unicode format characters, the ASCII characters a "
+    "component reserves — spelled raw / with upper-case / lower-case escapes in 14 shapes (path, query key, value, "
+    "fragment, userinfo, ends of the URL; the shapes of seeded C03-3 and of 5de5f5e); [otherwise] "
+    "a base URL (structured components over the quantifier's token "
     "alphabet, normalize-specific hosts / tails / tracking items) and up to 4 members obtained by "
     "compositions of <= 3 spelling transformations — C02's (scheme/host case, explicit default port, "
     "lower-case hex, escaping of unreserved / non-ASCII characters, raw space vs %20, punycode vs "
@@ -77,9 +97,16 @@ UNPROVED = (
     "union of the hypotheses. NOT proved, explored by the oracle on every run: (b),(c2) on URLs with capital letters "
     "(that normalize_url's steps other than the index test commute with lower-casing), "
     "platform_aware=True (D53: KF-C03-2), URLs with a redirect hint (D29: KF-C03-1), the "
-    "string-level bridging (cleaning + CPython parse/print: evaluated per case by c03_bridge / c03_lower; an "
+    "CPython half of the string-level bridging (that urlsplit gives the printed components back and parses u.lower() into the "
+    "lower-cased components: evaluated per case by c03_bridge / c03_lower; an "
     "unknown scheme with an empty authority, where it used to fail - KF-C03-5 - is fixed: FX-C02-f918741), equality of "
-    "the printed strings vs equality of the components."
+    "the printed strings vs equality of the components. The CLEANING half of the string level IS proved "
+    "(Props/C03Control.lean, all input strings): from the table obligations control_class_stays_escaped / "
+    "strip_class_stays_escaped (every code point CONTROL_CHARS_RE deletes / str.strip removes is kept escaped by the safe "
+    "unquoters; regenerated classes, decided on the ranges, lifted to all code points) the canonical form holds no such "
+    "character outside the hostname (canonical_form_has_no_cleaned_character, both modes) and the cleaning pass is the identity on "
+    "it (clean_canonical: full strength since /repo 16f182c; normalize_cleaning_canonical_partial adds upper_quoted, unquoted mode, "
+    "for a default protocol made of letters and no '%' in the hostname)."
 )
 
 # ---------------------------------------------------------------------------------------
@@ -252,6 +279,10 @@ def cases(rng, tier):
     for urls in CORPUS:
         for o in OPTS:
             yield _mk(urls=urls, o=o)
+    # invisible / control / white-space characters, raw and escaped, in every text component
+    # (characters from the regenerated classes: harness/c03_invisible.py)
+    for c in c03_invisible.cases(tier):
+        yield c
     c02 = sorted(urlgen.C02_TRANSFORMS)
     nts = sorted(N_TRANSFORMS)
     k = 0
@@ -609,6 +640,8 @@ def nontrivial(case):
 
 def classify(case):
     labs = ["opts:pa=%d,ss=%d,quoted=%d" % (case["pa"], case["ss"], case["quoted"])]
+    if "inv" in case:
+        labs.append("inv:" + case["inv"])
     for r in case.get("recipes", []):
         labs += ["T=" + t for t in r]
     m = members(case)
